@@ -102,6 +102,39 @@ def decode(pick, enc, hexbm, cfgs=None):
     return h
 
 
+DE43_FAMILY = [
+    'ACME STORE\\12 HIGH ST\\MELBOURNE\\3103      VICAUS',
+    'ACME STORE  \\12 HIGH ST   \\MELBOURNE   \\      3103VICAUS',
+    'A\\B\\C\\ 90210    CA USA',
+    'CORNER SHOP\\1 THE STREET\\LONDON\\SW1A 1AA  ENGGBR',
+    'X\\Y\\Z\\          NSWAUS',
+    'NO BACKSLASHES HERE 3103      VICAUS',
+]
+
+
+def de43_plumbing(enc):
+    """DE43 sub-fields on concrete merchant strings (the regular expression engine runs natively): the derived entries must equal an
+    independent reading that applies the configured pattern and right-strips the postcode, as documented"""
+    def h():
+        from . import ref
+        iso = M().iso8583
+        cfgs = bit_config()
+        v = choose('de43', DE43_FAMILY)
+        other = choose('other', [None, 3, 49])
+        msg = {'MTI': '1240', 'DE43': v}
+        if other:
+            msg['DE%d' % other] = 'Z' * cfgs[str(other)]['field_length']
+        rp = {'kind': 'decode', 'args': {'msg': msg, 'enc': enc, 'hexbm': False, 'cfg': 'packaged'}}
+        wire = ref.ref_encode(msg, cfgs, enc, False)
+        want, _ = ref.ref_decode(wire, cfgs, enc, False)
+        with guard('loads', 'C02/decode-refused', rp):
+            got = iso.loads(wire, encoding=enc)
+        require(got == want, 'decoded entries differ from the independent reading: %s' % sorted(k for k in set(got) | set(want) if got.get(k) != want.get(k)),
+                key='C02/de43', replay=rp)
+        return {'sample': {'DE43': v, 'derived': {k: x for k, x in got.items() if k.startswith('DE43_')}}, 'replay': rp}
+    return h
+
+
 def obligations(tier):
     q = tier == 'quick'
     check_codecs()
@@ -127,4 +160,7 @@ def obligations(tier):
             gb = sorted(int(k) for k in cfg)
             obs.append(Ob('generic/%s/%s' % (direction, name), mk_h(lambda gb=gb: list(gb), 'cp500', False, cfgs=cfg), 600,
                           'caller-supplied configuration %s' % name, _funcs))
+    for enc in (('latin_1', 'cp500') if q else CODECS):
+        obs.append(Ob('dec/de43-family/%s' % enc, de43_plumbing(enc), 120,
+                      'DE43 from a concrete family of merchant strings (blank-padded, right-aligned, all-blank postcode, no match), alone or next to another element', _funcs))
     return obs
